@@ -306,8 +306,10 @@ class DetectorConvergenceCondition(StoppingCondition):
             start_ref = jnp.clip(start_ref, 0, config.time_steps_total - prev_periods * spp)
             start_last = jnp.clip(start_last, 0, config.time_steps_total - spp)
 
-            ref_2d = jax.lax.dynamic_slice(readings, (start_ref, 0), (prev_periods * spp, 1))
-            last_2d = jax.lax.dynamic_slice(readings, (start_last, 0), (self._spp, 1))
+            # all start indices must share one integer dtype (a Python 0 becomes int64 under jax_enable_x64)
+            zero = jnp.zeros_like(start_ref)
+            ref_2d = jax.lax.dynamic_slice(readings, (start_ref, zero), (prev_periods * spp, 1))
+            last_2d = jax.lax.dynamic_slice(readings, (start_last, zero), (self._spp, 1))
 
             readings_ref = jnp.squeeze(ref_2d, axis=1)  # (k*spp,)
             readings_last = jnp.squeeze(last_2d, axis=1)  # (spp,)
